@@ -49,6 +49,30 @@ def _resolve_alias(f, expr):
                     for t in n.targets)]
         if len(defs) == 1 and I.is_path(defs[0].value):
             return unparse(defs[0].value)
+        # `for idx, occ in todo` over `todo = [(.., ro.occupation) for ro in
+        # ..]`: the k-th name stands for the k-th element of the tuples
+        stores = [n for n in walk(f.node) if isinstance(n, ast.Name) and
+                  n.id == expr.id and isinstance(n.ctx, (ast.Store, ast.Del))]
+        loops = [n for n in walk(f.node) if isinstance(n, ast.For) and
+                 isinstance(n.target, (ast.Tuple, ast.List)) and
+                 any(e is stores[0] for e in n.target.elts)] \
+            if len(stores) == 1 and not defs else []
+        if loops and isinstance(loops[0].iter, ast.Name):
+            k = [i for i, e in enumerate(loops[0].target.elts)
+                 if e is stores[0]][0]
+            src = [n for n in walk(f.node) if isinstance(n, ast.Assign) and
+                   any(isinstance(t, ast.Name) and t.id == loops[0].iter.id
+                       for t in n.targets)]
+            others = [n for n in walk(f.node) if isinstance(n, ast.Name) and
+                      n.id == loops[0].iter.id and
+                      isinstance(n.ctx, (ast.Store, ast.Del))]
+            if len(src) == 1 and len(others) == 1 and \
+                    isinstance(src[0].value, (ast.ListComp,
+                                              ast.GeneratorExp)) and \
+                    isinstance(src[0].value.elt, ast.Tuple) and \
+                    len(src[0].value.elt.elts) == len(loops[0].target.elts) \
+                    and I.is_path(src[0].value.elt.elts[k]):
+                return unparse(src[0].value.elt.elts[k])
     return unparse(expr)
 
 
@@ -858,6 +882,37 @@ def r03_5(prog, rep, rid='R03.5'):
 # ------------------------------------------------------------------------------
 # R03.6  rollback of a partial application-level search
 #
+def _real_guards(g, smap, c, slotvars):
+    """guards of the call `<node>.deallocate_slot(<slot>)` inside its own loop
+    nest level, without the ones that only *select the receiver*: the node is
+    looked up by comparing its index with the slot's node index
+    (`if node.index != slot.node_index: continue`) - for a slot that names a
+    node of the list that is the same as `self.nodes[slot.node_index]`"""
+    at = smap[id(c)]
+    recv = c.func.value
+    out = []
+    for tid, lab in guards(g, at.id):
+        t = g.nodes[tid]
+        if t.loops != at.loops:
+            continue
+        a = t.ast
+        if isinstance(recv, ast.Name) and isinstance(a, ast.Compare) and \
+                len(a.ops) == 1 and isinstance(a.ops[0], (ast.Eq, ast.NotEq)):
+            l, r = a.left, a.comparators[0]
+            roots = {root_name(l), root_name(r)}
+            equal = (lab == 'T') == isinstance(a.ops[0], ast.Eq)
+            loops = [g.nodes[h] for h in at.loops if g.nodes[h].kind == 'for']
+            inner = loops[-1] if loops else None
+            if equal and I.is_path(l) and I.is_path(r) and \
+                    recv.id in roots and (roots - {recv.id}) <= set(slotvars) \
+                    and len(roots) == 2 and inner is not None and \
+                    recv.id in stores_in_target(inner.ast.target) and \
+                    unparse(inner.ast.iter) == 'self.nodes':
+                continue
+        out.append((tid, lab))
+    return out
+
+
 def r03_6(prog, rep, rid='R03.6'):
     rep.rule(rid, 'NodeList.find_slots: a failure return after a successful '
              'find_slot (which allocates) passes the loop that deallocates '
@@ -892,8 +947,7 @@ def r03_6(prog, rep, rid='R03.6'):
                         c.func.attr == 'deallocate_slot' and c.args and \
                         isinstance(c.args[0], ast.Name) and \
                         c.args[0].id in tv and \
-                        not [x for x in guards(g, smap[id(c)].id)
-                             if g.nodes[x[0]].loops == smap[id(c)].loops]:
+                        not _real_guards(g, smap, c, tv):
                     undo.append(n.id)
     fails = [n for n in g.stmt_nodes() if n.kind == 'stmt' and
              isinstance(n.ast, ast.Return) and (
@@ -928,9 +982,7 @@ def r03_6(prog, rep, rid='R03.6'):
                 if isinstance(c.func, ast.Attribute) and \
                         c.func.attr == 'deallocate_slot' and c.args and \
                         isinstance(c.args[0], ast.Name) and c.args[0].id in tv \
-                        and not [x for x in guards(g2, smap2[id(c)].id)
-                                 if g2.nodes[x[0]].loops ==
-                                 smap2[id(c)].loops]:
+                        and not _real_guards(g2, smap2, c, tv):
                     okay = True
     rep.check(okay, rid, f2, 'release_slots deallocates every slot it is '
               'given', construct='release_slots',
@@ -983,6 +1035,56 @@ def _state_polarity(prog, f, g, nid, state, free, busy):
         if k in edges:
             pol = edges[k]
     return pol
+
+
+def _feasible_after(f, g, wid, pid_, again, noexc):
+    """second opinion on "the failure point pid_ is reached after the write
+    wid": the locals of `f` that only ever hold constants (`node_found =
+    False` .. `node_found = True`) are evaluated along the paths from the
+    entry, so that a write made on the branch that also sets such a flag is
+    not followed by a failure the flag rules out.  `again`: edges into the
+    next iteration of the loop over the slots (what was written belongs to an
+    earlier slot then)"""
+    from .c02 import _const_flags, _truth as _truth3
+    flags = _const_flags(f)
+    if not flags:
+        return True
+    key = lambda e: (e.src, e.dst, e.label)                     # noqa
+    again = {key(e) for e in again}
+    noexc = {key(e) for e in noexc}
+    todo = [(g.entry.id, (), False)]
+    seen = set()
+    while todo:
+        k = todo.pop()
+        if k in seen:
+            continue
+        seen.add(k)
+        nid, st, wrote = k
+        if nid == pid_ and wrote:
+            return True
+        n = g.nodes[nid]
+        known = dict(st)
+        for e in g.succ[nid]:
+            st2, w2 = st, wrote
+            if nid == wid and key(e) not in noexc:
+                w2 = True
+            if key(e) in again:
+                w2 = False
+            if n.kind == 'test' and e.label in ('T', 'F') and \
+                    n.ast is not None:
+                v = _truth3(n.ast, known)
+                if v is not None and v != (e.label == 'T'):
+                    continue
+            elif n.kind == 'stmt' and e.label != 'exc' and \
+                    isinstance(n.ast, ast.Assign) and \
+                    len(n.ast.targets) == 1 and \
+                    isinstance(n.ast.targets[0], ast.Name) and \
+                    n.ast.targets[0].id in flags:
+                k2 = dict(known)
+                k2[n.ast.targets[0].id] = n.ast.value.value
+                st2 = tuple(sorted(k2.items(), key=lambda kv: kv[0]))
+            todo.append((e.dst, st2, w2))
+    return False
 
 
 class _Atomicity:
@@ -1097,7 +1199,8 @@ class _Atomicity:
                     head = w.loops[0]
                     again = [e for x in g.loop_body[head] | {head}
                              for e in g.succ[x] if e.enter == head]
-                if pid_ in g.reachable(wid, skip_edges=again + noexc):
+                if pid_ in g.reachable(wid, skip_edges=again + noexc) and \
+                        _feasible_after(f, g, wid, pid_, again, noexc):
                     hit = wtxt
                     break
                 if across is None:
@@ -1835,6 +1938,10 @@ MUTATIONS = [
         (_N, "                for ro in self.gpus:", "                for ro in self.cores:")]),
     dict(name='R03.10 find_slot, shared pick helper: the gpus are picked from the core pool', rules=('R03.10', 'R03.S'),
          edits=_c02._fs_shared('self.cores, rr.n_gpus, rr.gpu_occupation')),
+    dict(name='R03.6 release_slots looks the node up by index, with the polarity of the match flipped', rules=('R03.6',), edits=[
+        (_N, "        for slot in slots:\n\n            node = self.nodes[slot.node_index]\n            node.deallocate_slot(slot)\n\n", "        for slot in slots:\n\n            for node in self.nodes:\n                if node.index == slot.node_index:\n                    continue\n                node.deallocate_slot(slot)\n                break\n\n")]),
+    dict(name='R03.1 Node.allocate_slot: gpu bookings collected first, with a whole unit instead of the requested share', rules=('R03.1',), edits=[(_N, '            for ro in gpus:\n                g_idx = self._get_gpu_index(ro)\n                self.gpus[g_idx].occupation += ro.occupation\n', '            todo = [(self._get_gpu_index(ro), 1.0) for ro in gpus]\n            for g_idx, occ in todo:\n                self.gpus[g_idx].occupation += occ\n')]),
+    dict(name='R03.7 lfs booked on every node visited by the lookup, before the match test; unknown node still raises', rules=('R03.7', 'R03.1'), edits=[(_B, "                if node['index'] == slot['node_index']:\n                    node_found = True\n                    break\n", "                if slot['lfs']:\n                    if new_state == rpc.BUSY:\n                        node['lfs'] -= slot['lfs']\n                    else:\n                        node['lfs'] += slot['lfs']\n                if node['index'] == slot['node_index']:\n                    node_found = True\n                    break\n"), (_B, "            if slot['lfs']:\n                if new_state == rpc.BUSY:\n                    node['lfs'] -= slot['lfs']\n                else:\n                    node['lfs'] += slot['lfs']\n\n", '')]),
 ]
 
 SILENT = [
@@ -1930,4 +2037,8 @@ SILENT = [
          edits=_c02._fs_shared()),
     dict(name='find_slot: pick helper returns the list, caller compares the length (seed C02-r10)',
          edits=_c02._fs_picked()),
+    dict(name='release_slots looks the node up by comparing indexes (early continue; SILENT variant of C01)', edits=[
+        (_N, "        for slot in slots:\n\n            node = self.nodes[slot.node_index]\n            node.deallocate_slot(slot)\n\n", "        for slot in slots:\n\n            for node in self.nodes:\n                if node.index != slot.node_index:\n                    continue\n                node.deallocate_slot(slot)\n                break\n\n")]),
+    dict(name='Node.allocate_slot: gpu bookings collected first, applied in a second loop (SILENT variant of C01)', edits=[(_N, '            for ro in gpus:\n                g_idx = self._get_gpu_index(ro)\n                self.gpus[g_idx].occupation += ro.occupation\n', '            todo = [(self._get_gpu_index(ro), ro.occupation) for ro in gpus]\n            for g_idx, occ in todo:\n                self.gpus[g_idx].occupation += occ\n')]),
+    dict(name='_change_slot_states: lfs booked inside the node lookup loop, match branch (SILENT variant of C01)', edits=[(_B, "                if node['index'] == slot['node_index']:\n                    node_found = True\n                    break\n", "                if node['index'] == slot['node_index']:\n                    node_found = True\n                    if slot['lfs']:\n                        if new_state == rpc.BUSY:\n                            node['lfs'] -= slot['lfs']\n                        else:\n                            node['lfs'] += slot['lfs']\n                    break\n"), (_B, "            if slot['lfs']:\n                if new_state == rpc.BUSY:\n                    node['lfs'] -= slot['lfs']\n                else:\n                    node['lfs'] += slot['lfs']\n\n", '')]),
 ]
